@@ -289,6 +289,54 @@ def options_obligation(prop):
     return Obligation("OX.K", "library options: every keyword option of a library call on the interpreted paths is part of the call's model", run, floor=0)
 
 
+def handlers_obligation(prop):
+    """cross-cutting obligation: an exception handler that goes on with a substitute (returns a default, assigns a fallback, skips the
+    element, falls through) is a second way through a function that the interpretation does not follow: the failing input gets an answer
+    nobody has looked at.  The handlers of the pinned tree are confirmed (spec/handlers_baseline.py); a further one in a function of the
+    property's call closure that does not end in a raise makes the property undecided."""
+    from sa.report import Obligation
+    from .effects_entries import ENTRIES
+    from .handlers_baseline import HANDLERS
+
+    def run(ctx):
+        prog = ctx.prog
+        roots = [q for q in ENTRIES[prop] + WRAPPERS.get(prop, []) if prog.has(q)]
+        cg = prog.callgraph()
+        scope, todo = set(), list(roots)
+        while todo:
+            q = todo.pop()
+            if q in scope:
+                continue
+            scope.add(q)
+            todo.extend(cg.get(q, ()))
+        n, first = 0, None
+        for q in sorted(scope):
+            try:
+                m, fn = prog.func(q)
+            except AnchorMissing:
+                continue
+            nested = {id(x) for n_ in ast.walk(fn) if isinstance(n_, (ast.FunctionDef, ast.Lambda)) and n_ is not fn for x in ast.walk(n_)}
+            known = list(HANDLERS.get(q, []))
+            for h in ast.walk(fn):
+                if not isinstance(h, ast.ExceptHandler) or id(h) in nested:
+                    continue
+                n += 1
+                sig = (" ".join(ast.unparse(h.type).split()) if h.type is not None else "*", "+".join(type(st).__name__ for st in h.body))
+                if sig in known:
+                    known.remove(sig)
+                    continue
+                ends_in_raise = bool(h.body) and isinstance(h.body[-1], ast.Raise)
+                if not ends_in_raise and first is None:
+                    first = (q, h, sig)
+        ctx.count(n, {"exception handlers in the call closure": n})
+        if first is not None:
+            q, h, sig = first
+            raise Unsupported(f"{q} catches {sig[0]} and goes on ({sig[1]}): what the input that fails gets instead is a path of its own, "
+                              "not followed by the interpretation", h)
+
+    return Obligation("OX.H", "failure paths: no exception handler in the call closure goes on with a substitute value (beyond the confirmed ones)", run, floor=0)
+
+
 def overrides_obligation(prop):
     """cross-cutting obligation: the property is stated for particle lists of every class.  A subclass that overrides one of the
     methods the property's rules analyse puts new code behind the property for its own lists; the override is interpreted next to the
@@ -356,6 +404,14 @@ def plumbing_obligation(prop):
     from .effects_entries import ENTRIES
     from . import plumbing_baseline as PB
     from .defaults_baseline import DEFAULTS
+    from .fills_baseline import FILLS
+
+    def _is_literal(txt):
+        try:
+            ast.literal_eval(txt)
+            return True
+        except Exception:  # noqa
+            return False
 
     def run(ctx):
         roots = [q for q in ENTRIES[prop] + WRAPPERS.get(prop, []) if ctx.prog.has(q)]
@@ -397,6 +453,17 @@ def plumbing_obligation(prop):
                 eff_ = have.get(p_)
                 if eff_ == "None" and v_ != "None":
                     eff_ = plumbing.filled_default(fn, p_) or eff_  # None as a sentinel, the old value filled in inside the function
+                if eff_ == "None" and v_ == "None" and p_ in have:
+                    fill_ = plumbing.filled_default(fn, p_)
+                    was_ = FILLS.get(q, {}).get(p_)
+                    if was_ is not None and fill_ is not None and (fill_ == was_ or not (_is_literal(fill_) and _is_literal(was_))):
+                        fill_ = None  # the fill of the pinned tree (or another spelling of a computed one: not compared)
+                    if fill_ is not None and fill_ != "None":
+                        # None stayed in the signature, but the body now replaces it: the effective default is the filled value
+                        ctx.finding(q, f"default of {p_}", f"`{p_}` of {q} is declared with None, and the function now replaces None by {fill_} before "
+                                    "anything else sees it: what used to mean \"not given\" (look it up in the data / leave the step out) has become "
+                                    f"the value {fill_} for every call that does not pass the option", fn, m)
+                        continue
                 if p_ in have and have[p_] is not None and eff_ != v_:
                     ctx.finding(q, f"default of {p_}", f"the default of `{p_}` in {q} changed from {v_} to {have[p_]}: every call that does not pass "
                                 "it (the property's default options, and the callers inside the package that rely on it) now behaves differently",
@@ -476,6 +543,23 @@ def labels_obligation(prop, floor=0):
                 ctx.finding(e.fn, e.node, "the result of a floating-point computation is stored into an array created with zeros_like / empty_like of the "
                             "caller's own array: the array inherits the caller's element type, so integer input (axis-aligned normals, voxel "
                             "positions) truncates every stored value", e.node, m)
+        # a number of the data used as a truth value
+        for it in its:
+            for e in it.events:
+                if e.kind != "typing" or e.name != "number-truth":
+                    continue
+                k = (e.fn, id(e.node), "number-truth")
+                if k in seen:
+                    continue
+                seen.add(k)
+                try:
+                    m, _ = ctx.prog.func(e.fn)
+                except Exception:  # noqa
+                    m = None
+                ctx.count(1, None)
+                ctx.finding(e.fn, e.node, f"`{norm_text(e.node)[:60]}` uses a number of the data ({tm.show(to_term(e.args[0]))[:60]}) as a truth value: 0 is a "
+                            "legitimate value here (index 0, class / object 0, a dose or radius of 0) and it is the one that takes the other branch "
+                            "(compare with None / test the length instead)", e.node, m)
         # <column>[i] with a running position
         for it in its:
             for e in it.events:
